@@ -132,3 +132,29 @@ Proof.
   destruct Hb as (_ & _ & HC & _). destruct Hb' as (_ & _ & HC' & _).
   generalize (reach6f_mono _ _ _ HR _ _ _ _ _ _ HC HC' H). lia.
 Qed.
+
+(** * the monitor's recency clause ([Check.spec_recent]) on the model's own observation *)
+From CM Require Import Bundle.Check.
+Theorem monitor_sound_recent cfg sp orc h w :
+  reach6f cfg sp (w_core w) -> forward orc (k_st (w_core w)) -> s_load sp = s_save sp ->
+  spec_recent cfg sp h (fst (model_step no_faults cfg sp w h orc)) = true.
+Proof.
+  intros HR HF HL. pose proof (reach6_inv _ _ _ (reach6f_reach6 _ _ _ HR)) as I.
+  pose proof (evals_run_hop cfg sp orc h (w_core w) (i_typed _ _ _ I) (i_unlocked _ _ _ I)) as EV.
+  assert (HR' : reach6f cfg sp (snd (run_hop_pure cfg sp orc h (w_core w)))) by (eapply reach6f_step; eauto).
+  destruct (EV (clear_log w) eq_refl) as [E1 E2].
+  unfold model_step. destruct (run_hop no_faults cfg sp orc h (clear_log w)) as [r w'] eqn:ER.
+  cbn [fst snd] in *. unfold spec_recent. cbn [ob_res ob_probe ob_st snd].
+  rewrite <- E2 in HR'. pose proof (reach6_inv _ _ _ (reach6f_reach6 _ _ _ HR')) as I'.
+  destruct ((res_code r =? 0)%Z && is_op h); [|reflexivity]. cbn [negb orb].
+  unfold probe.
+  destruct (evals_load_managed (w_core w') cfg (s_load sp) (i_typed _ _ _ I') (clear_log w') eq_refl) as [P1 _].
+  destruct (load_managed no_faults cfg (s_load sp) (clear_log w')) as [rp wp]. cbn [fst] in P1. subst rp.
+  unfold managed_of. destruct (newest_bundle (k_st (w_core w')) cfg (s_load sp)) as [[[[i k] x] m]|] eqn:EN; [|reflexivity].
+  destruct (N.eqb (c_pub x) k); [|reflexivity]. cbn [snd seen_of m_c].
+  pose proof (evals_load_any (w_core w') cfg (s_load sp) (i_typed _ _ _ I')) as EL. rewrite EN in EL.
+  destruct (most_recently_issued_loaded cfg sp (w_core w') (s_load sp) i k x m (w_core w') HR' EL) as [_ Hmax].
+  apply forallb_forall. intros j Hj. unfold w_st. rewrite <- HL.
+  destruct (bundle_at (k_st (w_core w')) j (s_load sp)) as [b|] eqn:EB; [|reflexivity].
+  apply N.leb_le. apply (Hmax j b); [apply in_seq in Hj; cbn in Hj; lia | exact EB].
+Qed.
